@@ -191,7 +191,50 @@ def c13(tier, seed):
     return res.finish()
 
 
-CHECKS = {"C01": c01, "C05": c05, "C06": c06, "C07": c07, "C08": c08, "C12": c12, "C13": c13}
+def c09(tier, seed):
+    res = Result("C09", tier, seed)
+    core.build()
+    q = tier == "quick"
+    # design: Open is enabled on every reachable closed state and never takes a failing branch
+    for name in ("NutsMC_kv", "NutsMC_ls", "NutsMC_st", "NutsMC_zs"):
+        mc_cfg(res, name, inv=["MCReopenInv", "TypeOK"], props=[], timeout=1800)
+    shards = []
+    for mode in ("keyval", "keyonly"):
+        for rw in ("fileio", "mmap"):
+            shards += fam_shards([("fill", ["-mode", mode, "-rw", rw])], seed, 1 if q else 12, 4, 25 if q else 60)
+    shards += fam_shards([("mixed", []), ("fail", []), ("failkv", ["-mode", "keyonly"]), ("mergekv", ["-mode", "keyval"])],
+                         seed + 7, 1 if q else 12, 3, 40 if q else 100)
+    rs = core.drive_and_validate(res, shards, core.dev_set(), "Open failed (or served something else than the committed transactions) on a directory the library produced",
+                                 "segments filled to exactly 0..47 bytes before their end, empty values, reads of never-written buckets, no-op operations, failed commits, merges; then Close/Open and shadow opens")
+    res.cov["samples"] = core.sample_events(rs[0]["trace"], 6, ops={"open", "shadow"})
+    ops = res.extra.get("events_by_op", {})
+    res.cov["distinct_nontrivial"] = ops.get("open", 0) + ops.get("shadow", 0) + ops.get("merge", 0)
+    res.cov["rule"] = ("non-trivial = Open calls on library-produced directories (real reopen, shadow copy, copy after Merge); the only admitted "
+                       "outcome is success with the contents Replay(log)")
+    res.assumptions += ["crash images (a record being written when the process died) are exercised by the C10/C11/C16 checks with the same Open rule",
+                        "sparse-mode directories are covered by C02"]
+    return res.finish()
+
+
+def c15(tier, seed):
+    res = Result("C15", tier, seed)
+    core.build()
+    q = tier == "quick"
+    for name in ("NutsMC_kv", "NutsMC_ls", "NutsMC_st", "NutsMC_zs"):
+        mc_cfg(res, name, inv=["MCReopenInv", "TypeOK"], props=["MergePreserves"], consts=None if q else {"MaxTx": "= 3"}, timeout=1800)
+    fams = [("mergekv", ["-mode", "keyval"]), ("mergekv", ["-mode", "keyonly"]), ("mergeds", []), ("merge", [])]
+    shards = fam_shards(fams, seed, 2 if q else 20, 3 if q else 4, 40 if q else 100)
+    rs = core.drive_and_validate(res, shards, core.dev_set(), "a read (in the process or after reopen) changed across Merge, or a write after Merge was lost",
+                                 "histories with Merge at random quiescent points (twice in a row, with injected I/O faults, with too few files), more writes, shadow and real reopens")
+    res.cov["samples"] = core.sample_events(rs[0]["trace"], 4, ops={"merge"})
+    res.cov["distinct_nontrivial"] = res.extra.get("events_by_op", {}).get("merge", 0)
+    res.cov["rule"] = ("non-trivial = Merge calls; each merge event carries the full observation of the process and of a reopened copy taken right "
+                       "after the call, which TLC compares with the unchanged model state; the histories continue with writes, reads and reopens")
+    res.assumptions += ["KV histories (both RAM modes) are judged to the end; histories with lists stop being judged at the first deviating Merge (known finding F-C15-1)"]
+    return res.finish()
+
+
+CHECKS = {"C09": c09, "C15": c15, "C01": c01, "C05": c05, "C06": c06, "C07": c07, "C08": c08, "C12": c12, "C13": c13}
 
 
 def main(argv):
